@@ -17,8 +17,8 @@
    proves them with tlapm for every finite D.  VOSafety is the same statement WITH geometry on small lattices; the conditions V1-V3, W1, W3
    are theorems of VOGeometry there.                                                                                                     *)
 EXTENDS VOAlgo, FiniteSets
-CONSTANTS D, Fam,           \* Fam : "paveba" | "vogp"
-          UseV2, UseV3      \* FALSE drops the condition: TLC must then find an inaccurate run (the conditions are not vacuous)
+CONSTANTS D, Fam,           \* Fam : "paveba" | "vogp" | "auer"
+          UseV2, UseV3, UseV4      \* FALSE drops the condition: TLC must then find an inaccurate run (the conditions are not vacuous)
 VARIABLES wd, ex, S, P, U
 vars == <<wd, ex, S, P, U>>
 \* vogp reuses the two truth variables:  wd plays sd (mu_j + slack dominates mu_i),  ex plays mo (dominates by more than the slack)
@@ -26,7 +26,7 @@ vars == <<wd, ex, S, P, U>>
 Pairs   == { p \in D \X D : p[1] # p[2] }
 Refl    == { <<i, i>> : i \in D }
 IsTrans(r) == \A i, j, k \in D : <<i,j>> \in r /\ <<j,k>> \in r => <<i,k>> \in r
-TruthOK == IF Fam = "paveba"
+TruthOK == IF Fam \in {"paveba", "auer"}
            THEN /\ Refl \subseteq wd /\ IsTrans(wd)
                 /\ ex \cap Refl = {}
                 /\ \A i, j, k \in D : <<i,j>> \in ex /\ <<j,k>> \in wd => <<i,k>> \in ex
@@ -52,8 +52,24 @@ VRound == \E Pe \in { X \in SUBSET (S \cup P) : Cardinality(S \cup P) = 1 => X =
             LET cov == { p \in Pairs : p[1] \in S /\ p[2] \in S \cup P /\ p \in ex } \cup extra              \* W3
                 x   == VogpStep(S, P, pdom, dom, cov, g) IN
             /\ S' = x.S /\ P' = x.P /\ U' = x.U /\ UNCHANGED <<wd, ex>>
+\* Auer (componentwise order, every design's own rectangle; relations as in VOAlgo):
+\*   A1  gt <<i,j>> (j beats i by more than both widths in every objective)  =>  wd <<i,j>>, and gt is acyclic (rank)
+\*   A3  ex <<i,j>>  =>  mc <<i,j>>  (i plus eps may still be matched by j)             for candidates i, j
+\*   A4  ex <<j,i>>  =>  nd <<j,i>>  (the hold-back test reads the same pair non-strictly)
+\* the relations are chosen stage by stage on the pairs the stage reads
+ARound == \E gt \in SUBSET { p \in Pairs : p[1] \in S /\ p[2] \in S /\ p \in wd } :                                  \* A1
+            LET Dc == AuerDisc(S, gt)   S1 == S \ Dc
+                exS1 == { p \in Pairs : p[1] \in S1 /\ p[2] \in S1 /\ p \in ex } IN
+            /\ (UseV2 => \E r \in [D -> 0..Cardinality(D)] : \A p \in gt : r[p[2]] > r[p[1]])
+            /\ \E extraM \in SUBSET { p \in Pairs : p[1] \in S1 /\ p[2] \in S1 } :
+                 LET mc == (IF UseV3 THEN exS1 ELSE {}) \cup extraM                                             \* A3
+                     P1 == AuerP1(S1, mc) IN
+                 \E extraN \in SUBSET { p \in Pairs : p[1] \in S1 \ P1 /\ p[2] \in P1 } :
+                   LET nd == (IF UseV4 THEN exS1 ELSE {}) \cup extraN                                           \* A4
+                       x  == AuerStep(S, P, gt, mc, nd) IN
+                   S' = x.S /\ P' = x.P /\ U' = x.U /\ UNCHANGED <<wd, ex>>
 Next == /\ S # {}
-        /\ IF Fam = "paveba" THEN PRound ELSE VRound
+        /\ CASE Fam = "paveba" -> PRound [] Fam = "vogp" -> VRound [] OTHER -> ARound
 Spec == Init /\ [][Next]_vars
 
 \* ---- invariants (inductive together with VOAlgoProofs!Sane)
@@ -68,6 +84,8 @@ AccurateP == S = {} => /\ \A i \in D \ P : \E j \in P : <<i,j>> \in wd
                        /\ \A i \in P : \A j \in D : <<i,j>> \notin ex
 AccurateV == S = {} => /\ \A i \in D : (~ \E j \in D \ {i} : <<i,j>> \in wd) => i \in P
                        /\ \A i \in P : \A j \in P \ {i} : <<i,j>> \notin ex
+HeldInv   == \A i \in S : \A k \in P : <<i,k>> \notin ex                           \* Auer: no member of P eps-exceeds a candidate (hold-back rule)
+AuerInv   == Fam = "auer" => Cover /\ HeldInv /\ GapInv /\ AccurateP
 PavebaInv == Fam = "paveba" => Cover /\ UsefulInv /\ GapInv /\ AccurateP
 VogpInv   == Fam = "vogp" => IsoInv /\ NoMoInv /\ AccurateV
 \* the conditions are needed: with UseV2 = FALSE (mutual discards) or UseV3 = FALSE (coverage not implied by the truths) TLC finds
